@@ -755,10 +755,11 @@ peg::parser! {
                 BraceExpressionMember::CharSequence { start, end, increment: increment.unwrap_or(1) }
             }
 
-        rule number() -> i64 = sign:number_sign()? n:$(['0'..='9']+) {
+        rule number() -> i64 = sign:number_sign()? n:$(['0'..='9']+) {?
+            // N.B. A number that does not fit is not a sequence bound; the text stays literal.
             let sign = sign.unwrap_or(1);
-            let num: i64 = n.parse().unwrap();
-            num * sign
+            let num: i64 = n.parse().map_err(|_| "number out of range")?;
+            Ok(num * sign)
         }
 
         rule number_sign() -> i64 =
@@ -958,9 +959,16 @@ peg::parser! {
         rule tilde_expression() -> TildeExpr =
             &tilde_terminator() { TildeExpr::Home } /
             "+" &tilde_terminator() { TildeExpr::WorkingDir } /
-            plus:("+"?) n:$(['0'..='9']*) &tilde_terminator() { TildeExpr::NthDirFromTopOfDirStack { n: n.parse().unwrap(), plus_used: plus.is_some() } } /
+            plus:("+"?) n:$(['0'..='9']*) &tilde_terminator() {?
+                // N.B. An index that does not fit cannot name a directory-stack entry; fall through.
+                let n = n.parse().map_err(|_| "index out of range")?;
+                Ok(TildeExpr::NthDirFromTopOfDirStack { n, plus_used: plus.is_some() })
+            } /
             "-" &tilde_terminator() { TildeExpr::OldWorkingDir } /
-            "-" n:$(['0'..='9']*) &tilde_terminator() { TildeExpr::NthDirFromBottomOfDirStack { n: n.parse().unwrap() } } /
+            "-" n:$(['0'..='9']*) &tilde_terminator() {?
+                let n = n.parse().map_err(|_| "index out of range")?;
+                Ok(TildeExpr::NthDirFromBottomOfDirStack { n })
+            } /
             user:$(portable_filename_char()*) &tilde_terminator() { TildeExpr::UserHome(user.to_owned()) }
 
         rule tilde_terminator() = ['/' | ':' | ';' | '}'] / ![_]
